@@ -225,6 +225,22 @@ PROPS = {
         partial="'Append rejects nil keys' holds for pointer-typed key fields (c34_append_rejects_nil_partial) and is refuted for enum/identityref/union keys (known finding); uniqueness "
                 "of YANG key values is refuted for wrapper unions (known finding).",
     ),
+    "C16": dict(
+        level="proof",
+        technique="Coq proof (string_to_key o key_to_string = id for every key kind inside an executable guard, injectivity, key tuples, leaf paths resolve through GetNode) + differential correspondence check",
+        claim="c16_key_codec / c16_key_codec_simple: the string ygot prints for a list key of any supported type parses back to the same value (all integer widths, string, bool, decimal64 under the "
+              "float-oracle hypothesis fmt_g_okb, enumeration, identityref, union in its canonical alternative, leafref through its target); c16_key_to_string_total; c16_key_injective; c16_key_tuple "
+              "(multi-key: make_entry of the printed keys gives the same map key and key leaves); c16_leaf_paths_resolve: every leaf path that findUpdatedLeaves produces resolves through GetNode to "
+              "exactly that leaf; c16_created_entries_consistent_partial: an entry created from path keys has key leaves = map key = decoded keys.",
+        note="Trusted: Coq kernel; hand transcriptions of KeyValueAsString / StringToType / makeKeyForInsert / retrieveNodeList tied by the 'nodeops' and 'gnmirt' streams; %g text of float64 keys and "
+             "strconv parsing as oracle tables.",
+        coq_files=["Tree/KeyCodec", "Tree/Leaves", "Tree/Node", "Tree/KeyCodecProofs", "Tree/NodeStepProofs", "Tree/GnmiRt", "Tree/GnmiRtProofs", "Tree/GnmiGetProofs", "Tree/GnmiExample", "Corr/GnmiCorr"],
+        streams=[dict(name="nodeops", n=N(900, 8000)), dict(name="gnmirt", n=N(700, 6000))],
+        signatures=["key/", "setnode/key-leaf-overwrite", "deletenode/key-leaf-deleted", "union/wrapper-binary-unsettable", "getnode/"],
+        trusted=["schema translator and tree printer (tree.go)", "float and key oracle tables produced by the harness"],
+        partial="created-entry consistency is per entry (the whole-tree invariant is false: c16_refuted_key_leaf_overwrite, c16_refuted_key_leaf_deleted); union keys only for the canonical alternative "
+                "(c16_refuted_union_string); decimal64 under fmt_g_okb; a NaN decimal64 key string parses and SetNode panics (c16_refuted_nan_key).",
+    ),
     "C17": dict(
         level="proof",
         technique="Coq proof (value -> name -> value on well-formed tables, UNSET/undefined handling, a verified table checker) + regenerated-table obligation (every generated table, every run) + differential correspondence check",
@@ -242,6 +258,23 @@ PROPS = {
         trusted=["lib/c17_pre.py parses the generated Go source", "castToEnumValue ranges over a Go map: first match in ascending value order in the model (same on tables with distinct names)"],
         partial="c17_unset_not_rendered_partial covers struct fields and union members in JSON; the full statement is refuted (c17_unset_refuted: EnumName/KeyValueAsString/EncodeTypedValue/"
                 "leaf-list elements render UNSET as \"\", wrapper unions panic: known findings). 'All schemas' is per-run validation of the corpus x flag matrix.",
+    ),
+    "C02": dict(
+        level="proof",
+        technique="Coq proof (unmarshal_notifs o to_notifs = id by induction over arbitrary trees inside an executable guard; notifications = leaves, unguarded) + differential correspondence check of renderer, SetNode/DeleteNode and UnmarshalNotifications",
+        claim="c02_render_total: TogNMINotifications succeeds on every tree of the guard gn_treeb (keyed Go-map lists of every key kind, containers, leaves, non-empty leaf-lists) under any prefix that "
+              "repeats no key name; c02_notifs_are_leaves (no guard, ordered lists included): the notifications are exactly the leaves of the tree, one update per leaf, plus one atomic notification per "
+              "ordered-list group; c02_roundtrip_partial: applying them (prefix stripped, or pfx = []: c02_roundtrip_noprefix_partial) with UnmarshalNotifications to an empty root gives back exactly the "
+              "tree (tree equality, induction over arbitrary trees); c02_scalar_guard_simple: the per-leaf guard follows from typing for every non-union type.",
+        note="Trusted: Coq kernel; hand transcriptions of ygot/render.go (findUpdatedLeaves, TogNMINotifications) and ytypes/gnmi.go, node.go tied by the 'gnmirt' stream (every tree is rendered, "
+             "unmarshalled into an empty root and compared, on all seven packages) and by 'nodeops'/'setreq'; float and key oracle tables from the harness.",
+        coq_files=["Tree/KeyCodec", "Tree/Leaves", "Tree/Notif", "Tree/Node", "Tree/SetReq", "Tree/KeyCodecProofs", "Tree/NodeStepProofs", "Tree/GnmiRt", "Tree/GnmiRtProofs", "Tree/GnmiExample", "Corr/GnmiCorr"],
+        streams=[dict(name="gnmirt", n=N(700, 6000))],
+        signatures=["gnmi/"],
+        trusted=["schema translator and tree printer (tree.go)", "float and key oracle tables produced by the harness"],
+        partial="The round trip is proved for trees without ordered-by-user lists (gn_node accepts SList false only); with an ordered list that has a sibling the statement is false of the code "
+                "(c02_refuted_atomic_wipes, known finding), the OpenConfig shape (list alone in its container) is only computed (c02_ordered_openconfig_shape); unkeyed lists are rejected by "
+                "TogNMINotifications (c02_refuted_unkeyed, known finding); union leaves need the canonical alternative (tv_rtb).",
     ),
     "C03": dict(
         level="proof",
